@@ -29,6 +29,12 @@ struct Sched {
 
 	static Sched *&cur() { static Sched *s = nullptr; return s; }
 	static int &self() { static thread_local int id = -1; return id; }
+	// set once Abort has been thrown in this thread: further seam points (e.g. an unlock() run by a
+	// destructor during unwinding) must not throw again
+	static bool &unwinding() { static thread_local bool u = false; return u; }
+	// teardown reached this thread at a seam point that must not throw (an unlock() called from a
+	// destructor): the Abort is delivered at its next throwing seam point instead
+	static bool &pending_abort() { static thread_local bool u = false; return u; }
 
 	void wait_turn(int me) {
 		for(;;) {
@@ -60,6 +66,7 @@ struct Sched {
 				for(;;) {
 					wait_turn(t);
 					if(quit.load()) return;
+					unwinding() = false; pending_abort() = false;
 					try { if(!aborting.load()) body_(t); } catch(Abort &) {} catch(Panic &) {}
 					done[t] = 1;
 					give(-1);
@@ -81,9 +88,10 @@ struct Sched {
 	}
 
 	// called by a thread right after a seam event; kind: 0 load-like (no state change), 1 state change
-	void yield(int kind) {
+	void yield(int kind, bool can_throw = true) {
 		int t = self();
-		if(t < 0 || !active) return;
+		if(t < 0 || !active || unwinding()) return;
+		if(pending_abort()) { if(can_throw) { unwinding() = true; throw Abort{}; } return; }
 		if(kind) { progress++; idle_loads[t] = 0; }
 		else {
 			if(seen_progress[t] == progress) idle_loads[t]++; else idle_loads[t] = 1;
@@ -91,7 +99,10 @@ struct Sched {
 		}
 		give(-1);
 		wait_turn(t);
-		if(aborting.load()) throw Abort{};
+		if(aborting.load()) {
+			if(can_throw) { unwinding() = true; throw Abort{}; }
+			pending_abort() = true;
+		}
 	}
 
 	bool all_done() { for(int t = 0; t < n; t++) if(!done[t]) return false; return true; }
@@ -112,7 +123,7 @@ struct Sched {
 	}
 };
 
-inline void seam_yield(int kind) { if(Sched::cur()) Sched::cur()->yield(kind); }
+inline void seam_yield(int kind, bool can_throw = true) { if(Sched::cur()) Sched::cur()->yield(kind, can_throw); }
 inline int tid() { return Sched::self() < 0 ? 0 : Sched::self(); }
 
 } // namespace vt
